@@ -147,8 +147,10 @@ func ValidateAttribute(a PathAttributeInterface, rfs map[Family]BGPAddPathMode, 
 			return res == 0xe0
 		}
 		addr := net.IP(p.Value.AsSlice())
+		// A NEXT_HOP whose decoding failed (bad length) is kept in a message
+		// that is treated as withdraw; it has no address to look at.
 		// check IP address represents host address
-		if !loopbackNextHopAllowed && p.Value.IsLoopback() || isZero(addr) || isClassDorE(addr) {
+		if !p.Value.IsValid() || !loopbackNextHopAllowed && p.Value.IsLoopback() || isZero(addr) || isClassDorE(addr) {
 			eMsg := "invalid nexthop address"
 			data, _ := a.Serialize()
 			e := NewMessageErrorWithErrorHandling(eCode, eSubCodeBadNextHop, data, getErrorHandlingFromPathAttribute(p.GetType()), nil, eMsg)
